@@ -20,7 +20,8 @@ for sid in sorted(os.listdir(os.path.join(V, "seeded"))):
         d = "; ".join(dict.fromkeys(rules)) or ", ".join(det)
     else:
         d = "**missed**" if m.get("checks_run") else "not run yet"
-    rows.append("| %s | %s | %s | %s |" % (sid, m["property"], summ.replace("|", "/"), d))
+    first = ("missed at first; " + m["strengthened_by"]) if m.get("first_run") == "missed" else "caught at first run"
+    rows.append("| %s | %s | %s | %s | %s |" % (sid, m["property"], summ.replace("|", "/"), d, first.replace("|", "/")))
 ms = json.load(open(os.path.join(V, "selftest", "mutants.json")))
 fire = [m for m in ms if m["kind"] == "must_fire"]
 silent = [m for m in ms if m["kind"] == "must_stay_silent"]
@@ -30,9 +31,12 @@ out.append("Changes written by independent sub-agents (each got only the text of
            "`/repo`, nothing from `/verif`), re-confirmed by `selftest/confirm_seed.sh` (70+5 existing tests pass with the\n"
            "change; the agent's demonstration fails with it and passes without it) and kept under `seeded/<id>/`\n"
            "(patch.diff, seed_demo.rs, meta.json). `selftest/run_seeds.py` applies each to a scratch copy and runs the\n"
-           "property's check; the rule that reports it is recorded in meta.json.\n")
-out.append("| seed | property | what the change does | reported by |")
-out.append("|---|---|---|---|")
+           "property's check; the rule that reports it is recorded in meta.json. The last column is the honest history:\n"
+           "whether the check as it stood when the seed arrived caught it, and if not, which rule was added or shared\n"
+           "(the seed was then re-run; no check was loosened, and every strengthening was re-validated against the\n"
+           "unchanged tree and the mutant corpus).\n")
+out.append("| seed | property | what the change does | reported by (now) | first run of the property's check |")
+out.append("|---|---|---|---|---|")
 out.extend(rows)
 out.append("")
 out.append("Own corpus (`selftest/mutants.json`, run by `selftest/run.py`): %d must-fire mutants and %d behaviour-preserving\n"
